@@ -92,6 +92,14 @@ pub fn run(ctx: &Ctx, rep: &mut Report) {
             rep.foreign("setup-deployment-refused");
             continue;
         }
+        // anybody may also register a token the service deployed as a canonical token (it gets a
+        // second, unrelated id, which this workload never uses): under its own id it is still
+        // burned and minted
+        if rng.chance(1, 3) {
+            let a = toks[0].addr.clone();
+            let o = w.do_register_canonical(&a);
+            rep.count(if o.ok() { "service-token-also-registered-as-canonical" } else { "service-token-canonical-registration-refused" });
+        }
         // canonical tokens: asset contract, a stand-alone interchain token, a probe token
         let admin = w.u.principal();
         for (label, kind) in [("canonical-sac", TokKind::Sac), ("canonical-interchain-token", TokKind::Native), ("canonical-probe", TokKind::Probe)] {
